@@ -22,6 +22,12 @@ except a finished PDU when they hold one; exceptions raised by the real code are
 (`gen_conc / ConcRun / check_conc`): two link-layer receive threads on one real router under harness/dsched.py, schedules
 enumerated at lock-section granularity (<= 1 pre-emption) + PCT, counting oracle; the lock shape of
 `LocationTable.refresh_table` (Generated/Locks.lean) is an obligation of Props.C06 (`refresh_table_is_one_section`).
+
+Round 6: (a) CBF buffer under two receive threads - `gen_conc(focus="cbf")`: both threads get copies of one GBC packet, all
+schedules with <= 1 pre-emption INSIDE `gn_area_cbf_forwarding` (dsched focus), rule `ConcRun._judge_cbf` (a duplicate handled
+after the other thread's "already buffered?" test must drop the copy); obligation `cbf_test_and_insert_is_one_section`.
+(b) fault class "the link layer refuses a frame": `lf` option of rx / fire ops - `_LL.send` logs the attempt, then raises
+SendingException; followed by copies of the packet (oracle unchanged: at-most-once); obligation `dpl_touched_by_dpd_only`.
 """
 from __future__ import annotations
 
